@@ -267,6 +267,19 @@ class System:
     def teardown(self, cfg):
         pass
 
+    def begin(self, cfg):
+        """reset per-configuration counters"""
+        from mc import cref
+
+        for k in cref.STATS:
+            cref.STATS[k] = 0
+
+    def end(self, cfg):
+        """extra counters for the evidence file"""
+        from mc import cref
+
+        return {k: v for k, v in cref.STATS.items() if v}
+
 
 class Result:
     def __init__(self, system, cfg):
@@ -327,6 +340,7 @@ def explore(system: System, cfg, props, max_violations=20, state_cap=None):
     t0 = time.time()
     res = Result(system.name, cfg)
     props = set(props)
+    system.begin(cfg)
     init = system.initial(cfg)
     maxd = system.max_depth(cfg)
     state_cap = state_cap or cfg.get("state_cap")
@@ -429,6 +443,7 @@ def explore(system: System, cfg, props, max_violations=20, state_cap=None):
     n = len(parents)
     picks = [i for i in (1, 2) if i < n] + [i for i in (n - 2, n - 1) if i > 2]
     res.samples = [_history(parents, i) for i in picks]
+    res.extra.update(system.end(cfg))
     res.wall = time.time() - t0
     system.teardown(cfg)
     return res
